@@ -9,11 +9,24 @@ declared in the package being analysed.
 
 Reading.  A match is identified by the innermost node at which match.go performs the very
 same match (`norm`): ParenExpr/ExprStmt/DeclStmt/LabeledStmt are looked through by `match`
-itself (`match_paren`), a one-element BlockStmt/FieldList is replaced by its element when the
+itself (`match_strip`), a one-element BlockStmt/FieldList is replaced by its element when the
 element matches with the same result.  "Every syntax node" = the nodes of the kinds the
-pattern language has a node for (`Generated.universeKinds`).
+pattern language has a node for, plus BlockStmt, FieldList and IndexListExpr
+(`Generated.universeKinds`).
 
-The model (`Model.lean`) is the code after the `fix:` commits listed in notes/C08.md.
+Hypotheses of the theorems (what the world has to supply, never axioms):
+* `rootOk p` — p is a pattern Parser.Parse returns (a plain node in root position has a row in
+  nodeToASTTypes; otherwise Parse panics);
+* `Visible W` — the statement's proviso: every name under which Symbol.Match knows an object
+  the package refers to is resolved by the package's type index unless it has no package path
+  (false for symbols declared in the analysed package, and for the known finding
+  alias-cross-package);
+* `FuncNames W` — an object whose name the index resolves to a function is that function;
+* `WFc t` — go/ast shape: wrappers wrap nodes;
+* typeindex.Calls is modelled by its specification: the CallExpr nodes whose typeutil.Callee
+  is the object (`calleeObj`).
+
+The model (`Model.lean`) is the code after the eight `fix:` commits listed in notes/C08.md.
 -/
 import Verif.C08.Lemmas
 namespace Verif.C08
@@ -45,17 +58,17 @@ example : matchP ⟨fun _ => [], fun _ => false, fun _ => none, fun _ => false, 
   simp [matchP, matchFields]
 
 /-- normalising a matched node does not change the match (result and bindings) -/
-theorem norm_match' (W : World) (p : Pat) (σ : State) (t : Tree) :
+theorem norm_exact (W : World) (p : Pat) (σ : State) (t : Tree) :
     matchP W p (norm W p σ t) σ = matchP W p t σ ∧ norm W p σ (norm W p σ t) = norm W p σ t :=
   ⟨norm_match W p σ t, norm_idem W p σ t⟩
 
 /-- **entry_complete**: if the pattern matches at a node, the kind of the (normalised) node is
 among the pattern's entry kinds — for every node whose kind belongs to the universe. -/
-theorem entry_complete (W : World) (p : Pat) (σ : State) (t : Tree) (r : Tree × State)
-    (hw : WFc t) (hm : matchP W p t σ = some r)
+theorem entry_complete (W : World) (p : Pat) (hp : rootOk p = true) (σ : State) (t : Tree)
+    (r : Tree × State) (hw : WFc t) (hm : matchP W p t σ = some r)
     (hu : kindOf (norm W p σ t) ∈ Generated.universeKinds) :
     kindOf (norm W p σ t) ∈ entryKinds p :=
-  entry_complete_aux tables_ok W p σ t hw r hm hu
+  entry_complete_aux tables_ok W p hp σ t hw r hm hu
 
 /-- a world in which nothing resolves: enough for the syntactic examples -/
 def W0 : World := ⟨fun _ => [], fun _ => false, fun _ => none, fun _ => false, fun _ => false,
@@ -152,7 +165,7 @@ theorem rootcalls_complete (W : World) (hv : Visible W) (hf : FuncNames W) (p : 
       rw [hrs]; exact List.mem_map_of_mem hmem
     simp only [useIndex, Bool.and_eq_true, List.all_eq_true] at hui
     have hall := hui.2 _ hsym
-    simp only [Bool.and_eq_true, decide_eq_true_eq] at hall
+    simp only [decide_eq_true_eq] at hall
     have hlk := hv ob n hnames hall.1
     cases hl : W.lookup (symbolToIndexSymbol n) with
     | none => rw [hl] at hlk; simp at hlk
@@ -198,7 +211,7 @@ theorem candidates_sub (W : World) (files : List Tree) (p : Pat) (c : Tree)
 node, result+bindings) pairs obtained from the candidates of code.Matches are exactly those
 obtained from all syntax nodes of the package. -/
 theorem filter_exact (W : World) (hv : Visible W) (hf : FuncNames W) (files : List Tree)
-    (hwf : ∀ t ∈ subtreesL files, WFc t) (p : Pat)
+    (hwf : ∀ t ∈ subtreesL files, WFc t) (p : Pat) (hp : rootOk p = true)
     (n : Tree) (r : Tree × State) (hu : kindOf n ∈ Generated.universeKinds) :
     (∃ t ∈ subtreesL files, norm W p [] t = n ∧ matchP W p t [] = some r) ↔
     (∃ t ∈ candidates W files p, norm W p [] t = n ∧ matchP W p t [] = some r) := by
@@ -220,7 +233,7 @@ theorem filter_exact (W : World) (hv : Visible W) (hf : FuncNames W) (files : Li
       simpa using hob
     · simp only [hui, Bool.false_eq_true, if_false]
       refine List.mem_filter.mpr ⟨hmem, ?_⟩
-      have hk := entry_complete W p [] t r hw hm (by rw [hn]; exact hu)
+      have hk := entry_complete W p hp [] t r hw hm (by rw [hn]; exact hu)
       simp only [Bool.or_eq_true, List.contains_iff_mem]
       right; exact hk
   · rintro ⟨t, ht, hn, hm⟩
@@ -244,5 +257,31 @@ example : matchP W1 sprintfPat file1 [] ≠ none ∧ sprintfCall ∈ candidates 
     refine List.mem_filter.mpr ⟨by simp [file1, subtreesL, subtrees, sprintfCall], ?_⟩
     simp [calleeObj, sprintfCall, W1, rootCallSymbols, rootCallNames, sprintfPat, rootFunNames,
       symNames, sti_sprintf]
+
+/-- non-vacuity of filter_exact, with every hypothesis discharged on a concrete package: the
+brute-force match at the outer block of `file1` is found among the candidates the index yields -/
+example : ∃ t ∈ candidates W1 [file1] sprintfPat, norm W1 sprintfPat [] t = sprintfCall ∧
+    (matchP W1 sprintfPat t []).isSome = true := by
+  have hb : matchP W1 sprintfPat file1 [] = some (sprintfCall, []) := by
+    simp [file1, sprintfPat, sprintfCall, matchP, matchFields, symObj, identObj, firstSome, W1, peel, strip]
+  have hwf : ∀ t ∈ subtreesL [file1], WFc t := by
+    intro t ht
+    simp [subtreesL, subtrees, file1, sprintfCall] at ht
+    rcases ht with h | h | h | h | h | h | h <;> subst h <;> simp [WFc, isNode]
+  have hn : norm W1 sprintfPat [] file1 = sprintfCall := by
+    have hi : matchP W1 sprintfPat (.paren "ExprStmt" (.paren "ParenExpr" sprintfCall)) [] =
+        some (sprintfCall, []) := by
+      simp [sprintfPat, sprintfCall, matchP, matchFields, symObj, identObj, firstSome, W1, peel, strip]
+    have e : matchP W1 sprintfPat (.paren "ExprStmt" (.paren "ParenExpr" sprintfCall)) [] =
+        matchP W1 sprintfPat (.block false [.paren "ExprStmt" (.paren "ParenExpr" sprintfCall)]) [] := by
+      rw [hi]; exact hb.symm
+    unfold file1
+    rw [norm_block_single_eq _ _ _ _ _ e, norm_paren, norm_paren]
+    unfold sprintfCall
+    rw [norm_node]
+  have h := (filter_exact W1 W1_visible W1_funcNames [file1] hwf sprintfPat (by decide) sprintfCall
+    (sprintfCall, []) (by decide)).mp ⟨file1, by simp [subtreesL, subtrees, file1], hn, hb⟩
+  obtain ⟨t, ht, hnt, hmt⟩ := h
+  exact ⟨t, ht, hnt, by simp [hmt]⟩
 
 end Verif.C08
